@@ -992,3 +992,344 @@ mod tests {
         );
     }
 }
+
+/// Verification hook (compiled only with `--cfg nomt_verif`): the real [`SeekRequest`] state machine
+/// driven step by step without a store and without I/O.
+///
+/// The caller supplies the b-tree (hand-built leaves, branch nodes and staging maps), the live
+/// overlay, the pages of the page cache, and answers every page / leaf request of a request itself,
+/// whenever and in whichever order it likes. One `step` is one iteration of the `while let
+/// Some(query) = request.next_query()` loop of `Seeker::submit_key_path_request`; `supply_page` /
+/// `supply_leaf` are what `handle_merkle_page_and_continue` / `handle_leaf_page_and_continue` do
+/// for one waiting request. The multiplexing of the `Seeker` itself (I/O slab, waiter lists, idle
+/// queues, back-pressure) is not part of this surface.
+#[cfg(nomt_verif)]
+#[allow(missing_docs)]
+pub mod verif {
+    use super::*;
+    use crate::beatree::iterator::verif_tree::{build_tree, staging, LeafSpec, Val, PN_BASE};
+    use crate::beatree::leaf::node::LeafNode;
+    use crate::hasher::Blake3Hasher;
+    use crate::io::{PagePool, PAGE_SIZE};
+    use std::sync::Arc;
+
+    type H = Blake3Hasher;
+
+    /// What a request is waiting for.
+    #[derive(Clone, Debug, PartialEq, Eq)]
+    pub enum Awaiting {
+        Page(PageId),
+        /// index of the leaf in the flattened list of leaves
+        Leaf(usize),
+    }
+
+    /// Where `step` found the page it continued with.
+    #[derive(Clone, Copy, Debug, PartialEq, Eq)]
+    pub enum Source {
+        PageSet,
+        Overlay,
+        Cache,
+    }
+
+    /// The answer of one `step`.
+    #[derive(Clone, Debug, PartialEq, Eq)]
+    pub enum Step {
+        /// the request still waits for an answer of the caller
+        Busy,
+        /// `next_query()` answered `None`
+        NoQuery,
+        /// the page was at hand: `continue_seek` was called with it
+        Continued(PageId, Source),
+        NeedPage(PageId),
+        NeedLeaf(usize),
+    }
+
+    #[derive(Clone, Debug, PartialEq, Eq)]
+    pub enum StateView {
+        Seeking,
+        /// remaining overlay deletions
+        FetchingLeaf(usize),
+        /// collected leaf data so far
+        FetchingLeaves(usize),
+        Completed(Option<(KeyPath, ValueHash)>),
+    }
+
+    #[derive(Clone, Debug)]
+    pub struct RequestView {
+        pub depth: usize,
+        /// `position.raw_path()`
+        pub raw_path: KeyPath,
+        /// `None` at the root position (where `TriePosition::node_index` is not defined)
+        pub node_index: Option<usize>,
+        pub page_id: Option<PageId>,
+        pub siblings: Vec<Node>,
+        pub state: StateView,
+        pub ios: usize,
+        pub awaiting: Option<Awaiting>,
+    }
+
+    pub struct SeekSim {
+        root: Node,
+        read_tx: BeatreeReadTx,
+        overlay: LiveOverlay,
+        page_cache: PageCache,
+        page_pool: PagePool,
+        page_set: PageSet,
+        leaves: Vec<Arc<LeafNode>>,
+        record_siblings: bool,
+        requests: Vec<(SeekRequest, Option<Awaiting>)>,
+        next_bucket: u64,
+    }
+
+    impl SeekSim {
+        pub(crate) fn new(
+            root: Node,
+            overlay: LiveOverlay,
+            primary: Vec<(KeyPath, Option<Val>)>,
+            secondary: Option<Vec<(KeyPath, Option<Val>)>>,
+            branches: Vec<Vec<LeafSpec>>,
+            record_siblings: bool,
+        ) -> std::io::Result<Self> {
+            let page_pool = PagePool::new();
+            let (index, leaves) = build_tree(&page_pool, branches);
+            let read_tx = BeatreeReadTx::verif_in_memory(
+                index,
+                staging(primary),
+                secondary.map(staging),
+                page_pool.clone(),
+            )?;
+            let page_cache = PageCache::new(None, &crate::Options::new(), None);
+            Ok(SeekSim {
+                root,
+                read_tx,
+                overlay,
+                page_cache,
+                page_set: PageSet::new(page_pool.clone(), None),
+                page_pool,
+                leaves,
+                record_siblings,
+                requests: Vec::new(),
+                next_bucket: 1,
+            })
+        }
+
+        fn page_of(&self, bytes: &[u8]) -> Page {
+            assert_eq!(bytes.len(), PAGE_SIZE);
+            let mut fat = self.page_pool.alloc_fat_page();
+            fat[..].copy_from_slice(bytes);
+            PageMut::pristine_with_data(fat).freeze()
+        }
+
+        fn bucket(&mut self) -> BucketIndex {
+            self.next_bucket += 1;
+            BucketIndex::verif_new(self.next_bucket)
+        }
+
+        /// `PageCache::insert`: put a page into the page cache before any request runs.
+        pub fn cache_insert(&mut self, page_id: PageId, bytes: &[u8]) {
+            let page = self.page_of(bytes);
+            let bucket = self.bucket();
+            let _ = self.page_cache.insert(page_id, page, bucket);
+        }
+
+        /// Start over with an empty page set; with `freeze` the current one becomes the shared
+        /// warmed-up set of the new one (`PageSet::freeze`, `PageSet::new(_, Some(frozen))`).
+        pub fn restart_page_set(&mut self, freeze: bool) {
+            let fresh = PageSet::new(self.page_pool.clone(), None);
+            let old = std::mem::replace(&mut self.page_set, fresh);
+            if freeze {
+                self.page_set = PageSet::new(self.page_pool.clone(), Some(old.freeze()));
+            }
+        }
+
+        /// `SeekRequest::new` (what `Seeker::push` does); the index of the request.
+        pub fn push(&mut self, key: KeyPath) -> usize {
+            let request = SeekRequest::new::<H>(&self.read_tx, &self.overlay, key, self.root);
+            self.requests.push((request, None));
+            self.requests.len() - 1
+        }
+
+        pub fn len(&self) -> usize {
+            self.requests.len()
+        }
+
+        /// One iteration of the query loop of `Seeker::submit_key_path_request`.
+        pub fn step(&mut self, i: usize) -> Step {
+            if self.requests[i].1.is_some() {
+                return Step::Busy;
+            }
+            let Some(query) = self.requests[i].0.next_query() else {
+                return Step::NoQuery;
+            };
+            match query {
+                IoQuery::MerklePage(page_id) => {
+                    let mut source = Source::PageSet;
+                    let maybe_page = self
+                        .page_set
+                        .get(&page_id)
+                        .map(|(page, _origin)| page)
+                        .or_else(|| {
+                            source = if self.overlay.page(&page_id).is_some() {
+                                Source::Overlay
+                            } else {
+                                Source::Cache
+                            };
+                            super::super::get_in_memory_page(
+                                &self.overlay,
+                                &self.page_cache,
+                                &page_id,
+                            )
+                            .map(|(page, bucket_info)| {
+                                self.page_set.insert(
+                                    page_id.clone(),
+                                    page.clone(),
+                                    PageOrigin::Persisted(bucket_info),
+                                );
+                                page
+                            })
+                        });
+                    if let Some(page) = maybe_page {
+                        self.requests[i].0.continue_seek::<H>(
+                            &self.read_tx,
+                            &self.overlay,
+                            page_id.clone(),
+                            &page,
+                            self.record_siblings,
+                            &mut self.page_set,
+                        );
+                        return Step::Continued(page_id, source);
+                    }
+                    self.requests[i].0.note_io();
+                    self.requests[i].1 = Some(Awaiting::Page(page_id.clone()));
+                    Step::NeedPage(page_id)
+                }
+                IoQuery::LeafPage(page_number) => {
+                    let leaf = (page_number.0 - PN_BASE) as usize;
+                    self.requests[i].1 = Some(Awaiting::Leaf(leaf));
+                    Step::NeedLeaf(leaf)
+                }
+            }
+        }
+
+        /// The page request `i` waits for arrived from the hash table: what
+        /// `handle_merkle_page_and_continue` does for this request. `Err` if the request does not
+        /// wait for a page.
+        pub fn supply_page(&mut self, i: usize, bytes: &[u8]) -> Result<(), ()> {
+            let Some(Awaiting::Page(page_id)) = self.requests[i].1.clone() else {
+                return Err(());
+            };
+            self.requests[i].1 = None;
+            self.force_page(i, page_id, bytes);
+            Ok(())
+        }
+
+        /// As `supply_page`, whatever the request waits for.
+        pub fn force_page(&mut self, i: usize, page_id: PageId, bytes: &[u8]) {
+            let page = self.page_of(bytes);
+            let bucket = self.bucket();
+            let page = self.page_cache.insert(page_id.clone(), page.clone(), bucket);
+            self.page_set.insert(
+                page_id.clone(),
+                page.clone(),
+                PageOrigin::Persisted(BucketInfo::Known(bucket)),
+            );
+            let request = &mut self.requests[i].0;
+            assert!(!request.is_completed());
+            request.continue_seek::<H>(
+                &self.read_tx,
+                &self.overlay,
+                page_id,
+                &page,
+                self.record_siblings,
+                &mut self.page_set,
+            );
+        }
+
+        /// The leaf request `i` waits for arrived (or was in the leaf cache): what
+        /// `handle_leaf_page_and_continue` does for this request.
+        pub fn supply_leaf(&mut self, i: usize) -> Result<(), ()> {
+            let Some(Awaiting::Leaf(leaf)) = self.requests[i].1.clone() else {
+                return Err(());
+            };
+            self.requests[i].1 = None;
+            self.force_leaf(i, leaf);
+            Ok(())
+        }
+
+        /// As `supply_leaf`, with any leaf and whatever the request waits for.
+        pub fn force_leaf(&mut self, i: usize, leaf: usize) {
+            let leaf = BeatreeReadTx::verif_leaf_ref(self.leaves[leaf].clone());
+            let request = &mut self.requests[i].0;
+            assert!(!request.is_completed());
+            match request.state {
+                RequestState::FetchingLeaf { .. } => {
+                    request.continue_leaf_fetch::<H>(Some(leaf));
+                }
+                RequestState::FetchingLeaves { .. } => {
+                    request.continue_leaves_fetch::<H>(&mut self.page_set, &self.overlay, Some(leaf));
+                }
+                _ => unreachable!(),
+            }
+        }
+
+        pub fn view(&self, i: usize) -> RequestView {
+            let (request, awaiting) = &self.requests[i];
+            let state = match &request.state {
+                RequestState::Seeking => StateView::Seeking,
+                RequestState::FetchingLeaf {
+                    overlay_deletions, ..
+                } => StateView::FetchingLeaf(overlay_deletions.len()),
+                RequestState::FetchingLeaves {
+                    collected_leaf_data,
+                    ..
+                } => StateView::FetchingLeaves(collected_leaf_data.len()),
+                RequestState::Completed(t) => {
+                    StateView::Completed(t.as_ref().map(|l| (l.key_path, l.value_hash)))
+                }
+            };
+            RequestView {
+                depth: request.position.depth() as usize,
+                raw_path: request.position.raw_path(),
+                node_index: if request.position.is_root() {
+                    None
+                } else {
+                    Some(request.position.node_index())
+                },
+                page_id: request.page_id.clone(),
+                siblings: request.siblings.clone(),
+                state,
+                ios: request.ios,
+                awaiting: awaiting.clone(),
+            }
+        }
+
+        /// The working page set (`map` only, not the warmed-up set): page ids with `true` for
+        /// reconstructed pages, ascending.
+        pub fn page_set_ids(&self) -> Vec<(PageId, bool)> {
+            let mut v: Vec<(PageId, bool)> = self
+                .page_set
+                .verif_entries()
+                .into_iter()
+                .map(|(id, origin)| (id, matches!(origin, PageOrigin::Reconstructed { .. })))
+                .collect();
+            v.sort();
+            v
+        }
+
+        /// `PageSet::contains` / `PageSet::get` (bytes of the page).
+        pub fn page_set_contains(&self, page_id: &PageId) -> bool {
+            self.page_set.contains(page_id)
+        }
+
+        pub fn page_set_get(&self, page_id: &PageId) -> Option<Vec<u8>> {
+            self.page_set
+                .get(page_id)
+                .map(|(page, _)| page.page_data()[..].to_vec())
+        }
+    }
+
+    /// `range_bounds`
+    pub fn range_bounds(raw_path: KeyPath, depth: usize) -> (KeyPath, Option<KeyPath>) {
+        super::range_bounds(raw_path, depth)
+    }
+}
